@@ -23,6 +23,22 @@ from rig.machine_control.machine_controller import SpiNNakerLoadingError
 import sim_machine_c09 as sim
 
 
+def container(kind, cores):
+    """The collection of core numbers of one chip, as any of the iterables an application map may hold."""
+    cores = sorted(cores)
+    if kind == "frozenset":
+        return frozenset(cores)
+    if kind == "tuple":
+        return tuple(reversed(cores))
+    if kind == "list":
+        return list(cores)
+    if kind == "range" and cores and cores == list(range(cores[0], cores[-1] + 1)):
+        return range(cores[0], cores[-1] + 1)
+    if kind == "range":
+        return tuple(cores)
+    return set(cores)
+
+
 def run_case(c):
     machine = sim.SimMachine(c["machine"])
     net = sim.Net(machine)
@@ -44,7 +60,7 @@ def run_case(c):
                     f.write(bytes(bytearray(data)))
             amap = {}
             for b, targets in call["map"]:
-                amap[paths[b]] = {(x, y): set(cores) for x, y, cores in targets}
+                amap[paths[b]] = {(x, y): container(call.get("container"), cores) for x, y, cores in targets}
             kwargs = {}
             for k in ("app_id", "wait", "n_tries", "use_count"):
                 if call.get(k) is not None:
